@@ -155,7 +155,7 @@ def reader_regexes():
         I, enc, d, back, err = round_trip(LONG_W, shape)
         if I is None:
             continue
-        for frame, func, pat, flags, text in I.__dict__.get("regex_log", []):
+        for frame, func, pat, flags, text, _ms in I.__dict__.get("regex_log", []):
             out.setdefault((pat, flags), (frame, func))
     return out
 
@@ -1035,7 +1035,27 @@ def rule_scans(rep, rule="C-scan"):
                     and not (isinstance(node.left, ast.Constant) and len(str(node.left.value)) == 1):
                 for p2 in _const_strs(idx, fn, node.left):
                     verdict(fn, node, p2, False, "global")
-    rep.floor(rule, 9, "9 delimiter scan patterns in the reader's call closure")
+    # scans the reader actually performed over payload-bearing text while reading the written documents back
+    from ..absint import _has_payload
+
+    class _At:  # location stand-in for scans seen only in the interpretation
+        def __init__(self, frame):
+            self.short = "textgrid_io." + frame
+
+        def where(self, node):
+            return "praatio/utilities/textgrid_io.py"
+    for spec in (LONG_W, SHORT_W):
+        for shape in DOC_SHAPES[:2]:
+            I, enc, d, back, err = round_trip(spec, shape)
+            if I is None:
+                continue
+            for frame, func, pat, flags, text, maxsplit in I.__dict__.get("regex_log", []):
+                if func in ("split", "findall", "finditer") and _has_payload(text):
+                    verdict(_At(frame), None, pat, True, "first" if (func == "split" and maxsplit) else "global")
+            for m, needle, frame in I.__dict__.get("scan_log", []):
+                if len(needle) >= 3 and any(ch.isalnum() for ch in needle):
+                    verdict(_At(frame), None, needle, False, "global")
+    rep.floor(rule, 7, "delimiter scan patterns found in the reader's call closure or performed during the interpretation")
 
 
 def _scan_verdict(rep, rule, fn, node, pat, is_regex, kind):
@@ -1245,17 +1265,68 @@ def _flow_dispatch(rep, rule):
                       bad="; ".join(problems), loc=fn.loc)
 
 
+def _flow_encodings(rep, rule):
+    """openTextgrid interpreted with io.open as a recorder and parseTextgridStr abstracted: the file is read as
+    UTF-16 first; only when that fails with a UnicodeError is it read again as UTF-8; the text that was read is what
+    gets parsed; the caller's includeEmptyIntervals reaches the parser."""
+    from ..absint import MockObj, PyFunc
+
+    idx = common.ctx()
+    fn = idx.get("textgrid:openTextgrid")
+    rep.functions.add(fn.qual)
+    st = State([("0", Lin.num(0))], [0])
+    for what, utf16_ok in (("a BOM-marked UTF-16 file", True), ("a UTF-8 file", False)):
+        opened, parsed = [], []
+
+        def fopen(I, a, k):
+            enc = k.get("encoding", a[3] if len(a) > 3 else None)
+            mode = a[1] if len(a) > 1 else k.get("mode", "r")
+            opened.append((mode, enc))
+
+            def read(I_, *x, enc=enc):
+                if enc == "utf-16" and not utf16_ok:
+                    raise PyRaise("UnicodeError")
+                return "<text decoded as %s>" % enc
+            f = MockObj({"read": PyFunc(read), "close": PyFunc(lambda I_: None)}, "file")
+            f.attrs["__enter__"] = PyFunc(lambda I_: f)
+            f.attrs["__exit__"] = PyFunc(lambda I_, *x: None)
+            return f
+
+        def parse(I, a, k):
+            parsed.append((a[0], a[1] if len(a) > 1 else k.get("includeEmptyIntervals")))
+            d = DictVal()
+            d.d = {"xmin": Lin.num(0), "xmax": Lin.num(1), "tiers": Lst([])}
+            return d
+        ov = dict(default_overrides())
+        ov["textgrid_io.parseTextgridStr"] = parse
+        I = Interp(idx, st, overrides=ov)
+        I.builtin_overrides = {"io.open": fopen, "open": fopen}
+        try:
+            I.call_function(fn, ["some.TextGrid", True], {})
+        except PyRaise as e:
+            rep.refuted(rule, fn.short, what, "opening raises %s" % e.name, loc=fn.loc)
+            continue
+        except Undecided as e:
+            rep.undecided(rule, fn.short, what, str(e))
+            continue
+        want = [("r", "utf-16")] if utf16_ok else [("r", "utf-16"), ("r", "utf-8")]
+        problems = []
+        if opened != want:
+            problems.append("the file is opened as %s, expected %s" % (opened, want))
+        if len(parsed) != 1 or parsed[0][0] != "<text decoded as %s>" % want[-1][1]:
+            problems.append("the parser receives %r" % (parsed,))
+        elif parsed[0][1] is not True:
+            problems.append("includeEmptyIntervals does not reach the parser (%r)" % (parsed[0][1],))
+        rep.check(not problems, rule, fn.short, what, ok="read as %s; that text is parsed" % " then ".join(e for _, e in want), bad="; ".join(problems), loc=fn.loc)
+
+
 def rule_reader_flow(rep, rule="C-flow"):
     """CRLF normalisation dominates scanning; format sniffing order; blank removal; encoding fallback."""
     idx = common.ctx()
     # parseTextgridStr interpreted with the parsers abstracted to recorders
     _flow_dispatch(rep, rule)
-    # openTextgrid: utf-16 first, UnicodeError fallback to utf-8
-    ot = idx.get("textgrid:openTextgrid")
-    tr = [s for s in ot.node.body if isinstance(s, ast.Try)]
-    encs = [norm(k.value) for n in ast.walk(ot.node) if isinstance(n, ast.Call) and norm(n.func) == "io.open" for k in n.keywords if k.arg == "encoding"]
-    ok = bool(tr) and encs[:2] == ["'utf-16'", "'utf-8'"] and any(h.type is not None and norm(h.type) == "UnicodeError" for h in tr[0].handlers)
-    rep.check(ok, rule, ot.short, "encodings " + ", ".join(encs), ok="BOM-marked UTF-16 is tried first, UnicodeError falls back to UTF-8", bad="encoding detection is not 'utf-16, then utf-8 on UnicodeError'")
+    # openTextgrid interpreted with the file system and the parser abstracted
+    _flow_encodings(rep, rule)
     rep.floor(rule, 11)
 
 
